@@ -112,15 +112,24 @@ func c16ParseCSV(out string) ([]*c16CSVTable, error) {
 	if out == "" {
 		return nil, nil
 	}
-	rd := csv.NewReader(strings.NewReader(out))
-	rd.FieldsPerRecord = -1
-	recs, err := rd.ReadAll()
-	if err != nil {
-		return nil, c16Unp("csv-syntax")
+	if !strings.HasSuffix(out, "\n") {
+		return nil, c16Unp("csv-newline")
 	}
-	if strings.Count(out, "\n") != len(recs) {
-		// multi-line fields or skipped lines: record numbers would not be line numbers
-		return nil, c16Unp("csv-multiline")
+	// One record per line: the warnings on stderr refer to line numbers, and an
+	// empty line separates tables (encoding/csv's reader would skip it).
+	var recs [][]string
+	for _, line := range strings.Split(strings.TrimSuffix(out, "\n"), "\n") {
+		if line == "" {
+			recs = append(recs, []string{""})
+			continue
+		}
+		rd := csv.NewReader(strings.NewReader(line))
+		rd.FieldsPerRecord = -1
+		all, err := rd.ReadAll()
+		if err != nil || len(all) != 1 {
+			return nil, c16Unp("csv-syntax")
+		}
+		recs = append(recs, all[0])
 	}
 	var tables []*c16CSVTable
 	start := 0
@@ -394,9 +403,11 @@ func c16NumberAgrees(tok, csvNum string) (ok bool, frac float64, err error) {
 	half := 0.5 * math.Pow(10, -float64(len(m[2])))
 	q := v / factor
 	d := math.Abs(q - mant)
-	// slack: the quotient and the decimal->binary conversions are each good to
-	// a few ulps of q; 1e-9 relative is far above that and far below a digit.
-	tol := half*(1+1e-9) + math.Abs(q)*1e-12
+	// slack: benchstat prints the correctly rounded decimal of fl(value/factor);
+	// this quotient, the factor and the parsed mantissa are each good to an ulp
+	// or two of q, so 4e-15*|q| (~18 ulps) covers them. It matters only where a
+	// row's common scale prints huge quotients such as 1099511627776.0.
+	tol := half*(1+1e-9) + math.Abs(q)*4e-15
 	return d <= tol, d / half, nil
 }
 
@@ -428,9 +439,14 @@ func c16CompareTable(ti int, lines []string, t *c16CSVTable, warns map[int][]c16
 	if len(lines) < need {
 		return kit.Failf("bs-row-count", "table %d: csv has %d key lines, %d header levels, %d rows; text block has only %d lines%s", ti, h, L, R, len(lines), ctx()), nil
 	}
+	// "no line ends in blanks" is stated for the table grid; a key line such as
+	// "pkg: " (empty value) is only counted, see NOTES.md.
 	for i := 0; i < len(lines); i++ {
 		if strings.HasSuffix(lines[i], " ") {
-			return kit.Failf("bs-trailing-blank", "table %d line %d ends in blanks: %q", ti, i, lines[i]), nil
+			if i >= h && i < need {
+				return kit.Failf("bs-trailing-blank", "table %d line %d ends in blanks: %q%s", ti, i, lines[i], ctx()), nil
+			}
+			kit.Count("c16.bs.line-outside-grid-ends-in-blank", 1)
 		}
 	}
 	rl := make([][]rune, len(lines))
